@@ -1,10 +1,10 @@
 package verifharness
 
 import (
-	"net/http"
 	"encoding/json"
 	"errors"
 	"fmt"
+	"net/http"
 	"syscall"
 	"testing"
 	"testing/synctest"
